@@ -253,6 +253,8 @@ class _QOutView:
 
 
 def run_case(case):
+    if case.get('mode') == 'server':
+        return run_server_case(case)
     ev = []
     k, b, wait, nst = case['k'], case['b'], case['wait'], case['nst']
     fail = set(case['fail'])
@@ -511,6 +513,142 @@ def monitor(case, res, results):
                 exp = ('preerr', u) if kd == 'r' else ('inerr', u)
                 if tuple(d) != exp:
                     mon.append(dict(prop='C09', rule='pairing', detail=f'short-circuited request {u} ({kd}) got {d}, expected {exp}'))
+
+
+def gen_server_case(rng: random.Random, tier: str):
+    """the same worker behind the public API: Server(ThreadServlet(W, num_threads=k, batch_size=b, ...))"""
+    case = gen_case(rng, tier, rng.choice(['', '', 'lone', 'boundary']))
+    case['mode'] = 'server'
+    case['arr'] = [[dt, 'g' if kd in ('x', 'X') else kd] for dt, kd in case['arr']][:16]   # callers send regular inputs
+    case['fail'] = [u for u in case['fail'] if u < len(case['arr'])]
+    case['chooser'] = list(rng.choice([('random', 0.0), ('sticky', 0.2, 0.0), ('sticky', 0.05, 0.0),
+                                       ('pct', 2, 600, 0.0), ('pct', 3, 600, 0.0)]))
+    return case
+
+
+def run_server_case(case):
+    """monitors only (no model replay): every caller gets its own outcome, batches are well-formed and
+    partition the accepted requests, nobody waits for a full batch"""
+    from mpservice.mpserver import Server, ThreadServlet
+    ev = []
+    k, b, wait, nst = case['k'], case['b'], case['wait'], case['nst']
+    fail = set(case['fail'])
+    st = {'cid': 0}
+    outcomes = {}
+
+    def log(name, *args):
+        ev.append((int(round(detsched.now() / U)), name) + args)
+
+    class W(Worker):
+        def __init__(self, **kw):
+            super().__init__(**kw)
+            self.num_stream_threads = nst
+
+        def call(self, x):
+            is_list = isinstance(x, list)
+            xs = x if is_list else [x]
+            uids = [v[1] if isinstance(v, tuple) and len(v) == 2 and v[0] == ('p' if case['pre'] else 'x')
+                    else 'BAD:' + type(v).__name__ for v in xs]
+            cid = st['cid']
+            st['cid'] += 1
+            log('call', self.worker_index, int(is_list), ','.join(str(u) for u in uids))
+            for _ in range(case['service']):
+                detsched.yield_here('service')
+            if any(u in fail for u in uids):
+                raise CallErr(cid)
+            ys = [('y', u, cid) for u in uids]
+            return ys if is_list else ys[0]
+
+    if case['pre']:
+        def preprocess(self, x):
+            if x[0] == 'bad':
+                raise PreErr(x[1])
+            return ('p', x[1])
+        W.preprocess = preprocess
+
+    def main():
+        kw = dict(num_threads=k, batch_size=b)
+        if b > 1:
+            kw['batch_wait_time'] = wait * U
+        with Server(ThreadServlet(W, **kw), capacity=64) as srv:
+            def caller(uid, t, kind):
+                if t > 0:
+                    detsched.v_sleep(t * U)
+                log('arr', kind, uid)
+                try:
+                    y = srv.call(('x', uid) if kind == 'g' else ('bad', uid), timeout=1e6)
+                    outcomes[uid] = ('val', y[1], y[2]) if isinstance(y, tuple) and len(y) == 3 and y[0] == 'y' else ('garbage', repr(y)[:60])
+                except CallErr as e:
+                    outcomes[uid] = ('callerr', e.args[0])
+                except PreErr as e:
+                    outcomes[uid] = ('preerr', e.args[0])
+                except BaseException as e:  # noqa
+                    outcomes[uid] = ('other', type(e).__name__)
+                log('outcome', uid)
+            ths = []
+            t = 0
+            for uid, (dt, kind) in enumerate(case['arr']):
+                t += dt
+                ths.append(Thread(target=caller, args=(uid, t, kind.lower()), name=f'c{uid}'))
+            for th in ths:
+                th.start()
+            for th in ths:
+                th.join()
+            log('allback')
+        return True
+
+    chooser = make_chooser(case['chooser'], case['seed'])
+    v, e, s = detsched.run(main, chooser, max_steps=case.get('max_steps', 400000))
+    res = dict(events=ev, steps=s.steps, switches=s.switches, monitors=[], rest=0, deadlock=None)
+    mon = res['monitors']
+    allback = any(x[1] == 'allback' for x in ev)
+    if e is not None and not allback:
+        if s.deadlock_info == 'max_steps':
+            res['infra_error'] = 'max_steps reached'
+            return res
+        if s.deadlock_info is not None:
+            res['deadlock'] = s.deadlock_info
+        else:
+            mon.append(dict(prop='C09', rule='unexpected-exception', detail=repr(e)[:300]))
+    # (a problem after all callers are back belongs to the server's exit path: C11, not reported here)
+    kinds = {uid: kd.lower() for uid, (dt, kd) in enumerate(case['arr'])}
+    good = {u for u, kd in kinds.items() if kd == 'g'}
+    seen = collections.Counter()
+    calls = []
+    for x in ev:
+        if x[1] != 'call':
+            continue
+        i, is_list, us = x[2], x[3], x[4]
+        uids = [int(u) if u.isdigit() else u for u in us.split(',') if u != '']
+        calls.append(uids)
+        if b > 0 and (not is_list or not (1 <= len(uids) <= b)):
+            mon.append(dict(prop='C09', rule='malformed-batch', detail=f'server: call got {uids} (list={is_list}), batch_size={b}'))
+        if b == 0 and is_list:
+            mon.append(dict(prop='C09', rule='malformed-batch', detail=f'server: batch_size=0 but call got a list {uids}'))
+        for u in uids:
+            if u not in good:
+                mon.append(dict(prop='C09', rule='malformed-batch', detail=f'server: call got {u} ({kinds.get(u)}) in {uids}'))
+            else:
+                seen[u] += 1
+    res['ncalls'] = len(calls)
+    res['batch_sizes'] = [len(c) for c in calls]
+    cid_of = {u: cid for cid, us in enumerate(calls) for u in us}
+    for u in sorted(kinds):
+        if seen[u] > 1:
+            mon.append(dict(prop='C09', rule='partition', detail=f'server: request {u} appears in {seen[u]} batches'))
+        if u not in outcomes:
+            if res['deadlock']:
+                mon.append(dict(prop='C09', rule='unserved', detail=f'server: request {u} never answered; deadlock: {res["deadlock"]}'))
+                break
+            continue
+        if kinds[u] == 'g':
+            cid = cid_of.get(u)
+            exp = None if cid is None else (('callerr', cid) if any(x in fail for x in calls[cid]) else ('val', u, cid))
+        else:
+            exp = ('preerr', u)
+        if outcomes[u] != exp:
+            mon.append(dict(prop='C09', rule='pairing', detail=f'server: request {u} ({kinds[u]}) got {outcomes[u]}, expected {exp}'))
+    return res
 
 
 def model_lines(cid, case, res):
